@@ -984,6 +984,7 @@ func sourceStores(w *World, pkg string) []sourceStore {
 			out = append(out, sourceStore{fn, st, strShape(w, st.Val, 0)})
 		})
 	}
+	sort.Slice(out, func(i, j int) bool { return w.Pos(out[i].St.Pos()) < w.Pos(out[j].St.Pos()) })
 	return out
 }
 
